@@ -151,6 +151,7 @@ def scenarios(tier):
     S.append(("A:pipeline+expect", dict(a_pre=exp, a_events=["body:hello"], max_faults=1, sites=["recv", "send"]), k))
     S.append(("A:big-response,watermark,window", dict(a_pre=big, a_window=40, a_events=["drain"], max_faults=1, sites=["send"], adj=dict(outbuf_high_watermark=20)), k))
     S.append(("A:big-response,watermark,client-reset", dict(a_pre=big, a_window=40, a_events=["reset"], max_faults=0, adj=dict(outbuf_high_watermark=20)), k))
+    S.append(("A:get,log_socket_errors=off", dict(a_pre=get, max_faults=1, adj=dict(log_socket_errors=False)), k))
     S.append(("A:get,client-eof", dict(a_pre=get, a_events=["eof"], max_faults=0), k))
     S.append(("A:big,client-reset", dict(a_pre=big, a_window=40, a_events=["reset"], max_faults=0), k))
     S.append(("A:get,poll2", dict(a_pre=get, max_faults=1, poll2=True, sites=["recv", "send", "accept", "getsockopt"]), k))
